@@ -64,7 +64,8 @@ chk("C03", "exploration",
     "factor by factor, all temperature spellings x SI prefixes, angle offsets lat/lon, the five CGS<->SI electromagnetic pairs "
     "with prefixes, custom-registry affine units with generated exact-rational scale and offset incl. negative scales, and "
     "float32/complex/integer data) pushed through to / in_units / to_value / convert_to_units / get_conversion_factor by hand / "
-    "in_base / in_mks / in_cgs and their in-place twins, with targets spelled as strings and as Unit objects; identity, inverse and composition laws, route agreement in numbers and "
+    "in_base / in_mks / in_cgs and their in-place twins, with targets spelled as strings and as Unit objects, in the default registry, in a registry that re-scales 21 "
+    "default symbols, across registries and after a registry served other definitions of the same names; identity, inverse and composition laws, route agreement in numbers and "
     "resulting unit, exact rational expectation for generated affine parameters; the temperature pair table is enumerated "
     "exhaustively. The symbolic 'for all real scale/offset' clause is searched, not proved.",
     "Trusted: nothing but the laws themselves and exact Fraction arithmetic; tolerance 64 eps x (|value| + zero-point magnitudes / "
@@ -76,7 +77,8 @@ chk("C04", "exploration",
     "steps) over leaves in units constructed per dimension. After every instruction the library register is compared with a "
     "reference interpreter working on SI magnitudes and dimension vectors with a propagated forward error bound; sums must be "
     "labelled with the left operand's unit. One program in four runs in a power-of-64 custom registry and is re-run with every "
-    "leaf re-expressed: the two runs must denote bit-identical SI magnitudes (exact covariance, also for // and %).",
+    "leaf re-expressed: the two runs must denote bit-identical SI magnitudes (exact covariance, also for // and %). Exhaustive side "
+    "sweep: sin/cos/tan in 6 spellings x 11 angle units incl. the offset ones (lat, lon, a custom offset angle) against math.* and under re-expression.",
     "Trusted: dimension vectors from vf/oracle/table.py; leaf and result scales read from the library as data (C02/C05 judge "
     "them); registers downstream of a discontinuity/singularity hit are not value-judged; unit-rule lru caches are reset before "
     "each dyadic case (they are keyed by approximate Unit equality). Temperature refusals are C08's.",
@@ -87,17 +89,19 @@ chk("C17", "exploration",
     "Hypothesis cases over the full integer ranges incl. mixed-unit binary ufuncs (operator, ufunc, in-place, out=, mixed operand "
     "widths). Oracle: exact Fraction conversion rounded to the float type of the input's item size (>=16 bit), complex stays "
     "complex, result dtype equality, copy/in-place agreement in dtype and values, RuntimeWarning iff a value beyond the documented "
-    "threshold loses precision; with that warning raised as an error the in-place target is untouched or finished.",
+    "threshold loses precision; with that warning raised as an error the in-place target is untouched or finished. Side grids: temperature "
+    "difference + point of mixed widths, 11 equivalence routes x 8 integer dtypes x 5 forms against the float64-input result, float16/float32 "
+    "width kept for units whose scale is stored as a NumPy scalar.",
     "Trusted: exact decimal definitions of the 14 unit ratios used; binary ufuncs may return a wider float and are judged at the "
     "width of the rescaled operand; 8-bit operands may refuse in place; overflow to inf of the prescribed type is allowed.",
     "dtype x route grid enumeration + Hypothesis values vs exact rational conversion", "DESIGN.md §3 C17")
 chk("C06", "exploration",
-    "Differential against NumPy itself: ~910 call templates over ~300 NumPy functions, ndarray methods (with axis/keyword "
+    "Differential against NumPy itself: ~990 call templates over ~300 NumPy functions, ndarray methods (with axis/keyword "
     "arguments), indexing forms, in-place targets and out= variants (numpy, numpy.linalg, numpy.fft) are evaluated on bare "
     "copies of Hypothesis-drawn data and on the same data with units attached (one unit per role: no rescaling), for float64, "
     "int64 and complex128 data; either the unyt call raises or structure, shapes, dtype kinds and values agree bit for bit "
     "(<= 8 ulp classed as re-associated rounding), including mutated targets and out= buffers. Data include exact ties, zeros "
-    "and boundary arguments (t, tz roles).",
+    "and boundary arguments (t, tz roles), tuples of axes, odd-length axes, nested per-axis fill values, bare-first comparisons at the tolerance boundary.",
     "Trusted: NumPy on the bare data. A raise by the unyt call is accepted (the statement allows it; counted per function). "
     "Empty arrays and string-producing functions are not compared.",
     "catalogue enumeration x Hypothesis data, differential vs NumPy on bare arrays", "DESIGN.md §3 C06")
@@ -108,18 +112,19 @@ chk("C07", "exploration",
     "must denote the same SI magnitudes and dimension, bare results must be unchanged, presence of units may not depend on the "
     "assignment; a role A2 holds the same dimension in another unit than role A (mixed-unit arguments: bins, pad values, "
     "fill values, to_begin/to_end, search keys); templates of the selection/reshaping/sorting/rounding/interpolation/location-spread class must return unyt "
-    "objects of the input's dimension. Includes products whose units cancel across different scales. No per-function expected "
-    "unit is used.",
+    "objects of the input's dimension and every unit-carrying result must be nameable in its own registry. Includes products "
+    "whose units cancel across different scales. No per-function expected unit is used.",
     "Trusted: SI scale/dimension of *result* units read from the library (C02/C05 judge those). Rounding family excluded from "
-    "the numeric clause; LAPACK/FFT/log-based templates judged at rel 1e-9; explicit unit strippers and unit-keeping constant "
+    "the numeric clause; LAPACK/FFT/log-based templates judged at rel 1e-9, and a failing tolerant comparison is not judged when the "
+    "result is unstable under 1e-12 noise in the data (cancellation, near-degenerate eigenvectors); explicit unit strippers and unit-keeping constant "
     "constructors (ones_like) are outside the claim.",
     "catalogue enumeration x Hypothesis data, metamorphic change of units (bit-exact dyadic + tolerant)", "DESIGN.md §3 C07")
 chk("C16", "exploration",
     "Hypothesis cases over 12 shapes (0-d to 3-d incl. (1,), (1,1), empty), 11 units, dtypes, names and 16 indexing forms: "
     "constructors (view vs copy), indexing and iteration (class, units, name, values, view-ness), ~35 view/copy accessors judged "
     "with np.shares_memory and write-through (also unit-carrying data times a Unit object), ~60 unit-returning operations for "
-    "the class/shape invariant, coercion of mixed-unit lists in length, temperature (zero points), energy, time, mass and angle "
-    "families; plus the invariant over every unit-carrying leaf produced by the NumPy catalogue.",
+    "the class/shape invariant, coercion of mixed-unit lists (0-d elements and rows) in length, temperature (zero points), energy, "
+    "time, mass and angle families; plus the invariant over every unit-carrying leaf produced by the NumPy catalogue.",
     "Trusted: np.shares_memory; the invariant is asserted exactly as stated (shape () => unyt_quantity, size > 1 => not a quantity); "
     "0-d operands are built as quantities (an explicit unyt_array(0-d ndarray) keeps the class the caller asked for).",
     "Hypothesis shape/index/accessor generation with class, aliasing and write-through invariants", "DESIGN.md §3 C16")
@@ -130,7 +135,9 @@ chk("C18", "fault_enumeration",
     "unsimplified compounds such as km/m, J/erg whose Unit objects simplify() could rewrite) x 6 dtypes x generated values: after a "
     "raise the target's numbers and unit must be intact. Interleaved in the same process with ~75 copying calls and the whole "
     "NumPy catalogue on strided-view operands (bytes of the surrounding buffer, dtype, shape, unit expr/scale/offset/dimension/"
-    "str/repr before vs after) and with in-place/copy twin agreement, so state left by a failed call is exposed by what follows.",
+    "str/repr before vs after) and with in-place/copy twin agreement, so state left by a failed call is exposed by what follows. After every "
+    "copying call the result is overwritten in place and the inputs are compared again (a 'new object' may not alias its inputs); Unit objects "
+    "of a second registry and tolerance quantities passed as arguments are inputs too.",
     "Trusted: snapshots taken through NumPy (tobytes) and Unit attributes. A failed in-place call may retype an integer target to "
     "float with numbers and unit intact (the statement promises numbers and unit). Whether a faulty call is refused at all is "
     "C01/C08's subject.",
@@ -139,7 +146,7 @@ chk("C09", "exploration",
     "Exhaustive sweep over all 30 ordered (equivalence, from-dimension, to-dimension) pairs of the 9 built-in equivalences x every "
     "input/target unit of per-dimension pools (SI, CGS, prefixed, compound), plus Hypothesis cases (units, intermediate member, "
     "mu/gamma incl. array-valued against a scalar input, values over +-12 decades within each formula's domain, scalar/array, "
-    "int64/float64/float32) through to_equivalent / to / "
+    "int8..uint64/float64/float32, one case in four in a registry of code units with the target spelled as that registry's symbol) through to_equivalent / to / "
     "in_units / to_value / convert_to_equivalent / convert_to_units(equivalence=). Oracles: closed-form SI formula with the "
     "library's own constants, there-and-back, via-intermediate == direct, entry-point agreement, input snapshot for copying "
     "forms, in-place == copy, InvalidUnitEquivalence for uncovered requests (with the input left intact).",
@@ -167,13 +174,14 @@ chk("C19", "exploration",
     "np.array_equal; array_equal / array_equiv / assert_array_equal_units must reject physically equal but differently spelled "
     "operands. Decorators: exhaustive over every dimension in unyt.dimensions x SI/CGS/imperial/galactic spellings x 17 accepts "
     "usages and 4 returns usages with an instrumented wrapped function (call counter, identity of the returned object), plus "
-    "call histories (valid, swapped slots, valid ...) on one decorated function whose slots differ in dimension.",
+    "call histories (valid, swapped slots, valid ...) on one decorated function whose slots differ in dimension, and signatures "
+    "with *args / **kwargs catch-alls.",
     "Trusted: the SI scale of each of the 25 unit spellings is read from the library (cross-checked at 1e-5 against the "
     "independent table) so that the helpers' logic, not the table's accuracy, is judged. NumPy spellings only with atol=0; "
     "dimensionless operands excluded from the NumPy spellings (they adopt the other operand's unit by the library's tested contract).",
     "boundary-constructed Hypothesis cases with SI verdict oracle + metamorphic re-expression; exhaustive decorator usage matrix", "DESIGN.md §3 C19")
 chk("C12", "exploration",
-    "Exhaustive BFS over all histories up to length 3 (quick) / 4 (thorough) on a 16-letter alphabet of registry edits (add, re-add "
+    "Exhaustive BFS over all histories up to length 3 (quick) / 4 (thorough) on a 17-letter alphabet of registry edits (add, re-add "
     "with other scale / dimension / prefixability, modify by float, modify by quantity incl. same-scale dimension swap, remove, "
     "define_unit, on a prefixable symbol, a plain one, an explicit symbol colliding with a derived prefixed spelling, and a default "
     "symbol) with, after every step, a sweep of 26 probe strings (atomic, SI-prefixed, compound, sqrt, written-out names) and 12 arithmetic / "
@@ -181,17 +189,21 @@ chk("C12", "exploration",
     "Hypothesis histories of length 5-40 beyond. Oracle: a plain-dict model of the registry's explicit contents with its own "
     "prefix resolver (what a fresh registry with those contents answers), computed without touching the library. Units captured "
     "before an edit must keep their value; quantities held across an edit are converted / added / compared to the current "
-    "unit of the same spelling (old scale / new scale, or a refusal when the dimension changed).",
+    "unit of the same spelling (old scale / new scale, or a refusal when the dimension changed). Histories run under mks / cgs / galactic "
+    "registries; every probe is also read through a shallow copy of the registry and through the registry of Unit.copy() with edits applied "
+    "alternately through either handle; a deep copy taken mid-history keeps answering with the contents at copy time; captured Unit objects "
+    "are passed to the array constructors.",
     "Trusted: scales of unedited default symbols read from the library's table as data; each history runs in a registry carrying a "
     "unique marker symbol so that the process-wide content-hash-keyed caches cannot mix histories (the cross-registry effect is "
     "C13's subject).",
     "exhaustive BFS over edit histories + Hypothesis long histories vs dict model (model-based testing)", "DESIGN.md §3 C12")
 chk("C13", "exploration",
     "Hypothesis interleavings over 2-4 custom registries created by every route (UnitRegistry(), several with identical contents, "
-    "lut= own dict, from_json, unpickling, deepcopy, Unit.copy(deep=True), non-default unit system) and the default registry: 21 "
+    "lut= own dict, from_json, unpickling, deepcopy, Unit.copy(deep=True), non-default unit system) and the default registry: 25 "
     "operations (edits, unit construction, arithmetic, add_symbols/add_constants namespaces, UnitSystem creation, pickle / JSON / "
     "deepcopy round trips followed by edits of the restored registry, mixed-registry arithmetic, modify/remove attempts on the "
-    "default table through the registry, through units, through shallow copies). After every step a digest of every registry "
+    "default table through the registry, through units, through shallow copies, forks by deepcopy / pickle mid-history that must equal "
+    "their source when made, define_unit on private copies of the default registry). After every step a digest of every registry "
     "(20 probe strings, arithmetic / conversion / base-reduction results, registry identity of results) must be unchanged for "
     "every registry not acted on, and an import-time snapshot of the default registry, default_unit_symbol_lut, exported units and "
     "constants and a conversion panel must be intact.",
